@@ -128,9 +128,11 @@ func (_ *SprayAndWait) DispatchingAllowed(_ BundleDescriptor) bool {
 // The bundle's originator will distribute Multiplicity copies amongst its peers
 // Forwarders will only every deliver the bundle to its final destination
 func (sw *SprayAndWait) SenderForBundle(bp BundleDescriptor) (css []cla.ConvergenceSender, del bool) {
-	sw.dataMutex.RLock()
+	// The lock is held for the whole read-modify-write cycle of the bundle's metadata.
+	sw.dataMutex.Lock()
+	defer sw.dataMutex.Unlock()
+
 	metadata, ok := sw.bundleData[bp.Id]
-	sw.dataMutex.RUnlock()
 	if !ok {
 		log.WithFields(log.Fields{
 			"bundle": bp.ID(),
@@ -166,9 +168,7 @@ func (sw *SprayAndWait) SenderForBundle(bp BundleDescriptor) (css []cla.Converge
 		}
 	}
 
-	sw.dataMutex.Lock()
 	sw.bundleData[bp.Id] = metadata
-	sw.dataMutex.Unlock()
 
 	log.WithFields(log.Fields{
 		"bundle":              bp.ID(),
@@ -187,9 +187,11 @@ func (sw *SprayAndWait) ReportFailure(bp BundleDescriptor, sender cla.Convergenc
 		"bad_cla": sender,
 	}).Debug("Transmission failure")
 
-	sw.dataMutex.RLock()
+	// The lock is held for the whole read-modify-write cycle, several failures might be reported at once.
+	sw.dataMutex.Lock()
+	defer sw.dataMutex.Unlock()
+
 	metadata, ok := sw.bundleData[bp.Id]
-	sw.dataMutex.RUnlock()
 	if !ok {
 		log.WithFields(log.Fields{
 			"bundle": bp.ID(),
@@ -207,9 +209,7 @@ func (sw *SprayAndWait) ReportFailure(bp BundleDescriptor, sender cla.Convergenc
 	}
 	verifhook.At("routing.spray.reportfailure.rmw")
 
-	sw.dataMutex.Lock()
 	sw.bundleData[bp.Id] = metadata
-	sw.dataMutex.Unlock()
 }
 
 func (_ *SprayAndWait) ReportPeerAppeared(_ cla.Convergence) {}
@@ -315,9 +315,11 @@ func (_ *BinarySpray) DispatchingAllowed(_ BundleDescriptor) bool {
 // If a node has more than 1 copy left it will send floor(copies/2) to the peer
 // and keep roof(copies/2) for itself
 func (bs *BinarySpray) SenderForBundle(bp BundleDescriptor) (css []cla.ConvergenceSender, del bool) {
-	bs.dataMutex.RLock()
+	// The lock is held for the whole read-modify-write cycle of the bundle's metadata.
+	bs.dataMutex.Lock()
+	defer bs.dataMutex.Unlock()
+
 	metadata, ok := bs.bundleData[bp.Id]
-	bs.dataMutex.RUnlock()
 	if !ok {
 		log.WithFields(log.Fields{
 			"bundle": bp.ID(),
@@ -365,9 +367,7 @@ func (bs *BinarySpray) SenderForBundle(bp BundleDescriptor) (css []cla.Convergen
 		}
 	}
 
-	bs.dataMutex.Lock()
 	bs.bundleData[bp.Id] = metadata
-	bs.dataMutex.Unlock()
 
 	log.WithFields(log.Fields{
 		"bundle":              bp.ID(),
@@ -396,9 +396,11 @@ func (bs *BinarySpray) ReportFailure(bp BundleDescriptor, sender cla.Convergence
 
 	binarySprayBlock := metadataBlock.Value.(*bpv7.BinarySprayBlock)
 
-	bs.dataMutex.RLock()
+	// The lock is held for the whole read-modify-write cycle.
+	bs.dataMutex.Lock()
+	defer bs.dataMutex.Unlock()
+
 	metadata, ok := bs.bundleData[bp.Id]
-	bs.dataMutex.RUnlock()
 	if !ok {
 		log.WithFields(log.Fields{
 			"bundle":  bp.ID(),
@@ -406,7 +408,10 @@ func (bs *BinarySpray) ReportFailure(bp BundleDescriptor, sender cla.Convergence
 		}).Warn("No metadata")
 		return
 	}
-	binarySprayBlock.SetCopies(metadata.remainingCopies + binarySprayBlock.RemainingCopies())
+
+	// The copies announced in the failed transmission are still held by this node.
+	metadata.remainingCopies = metadata.remainingCopies + binarySprayBlock.RemainingCopies()
+	binarySprayBlock.SetCopies(metadata.remainingCopies)
 
 	for i := 0; i < len(metadata.sent); i++ {
 		if metadata.sent[i] == sender.GetPeerEndpointID() {
@@ -416,9 +421,7 @@ func (bs *BinarySpray) ReportFailure(bp BundleDescriptor, sender cla.Convergence
 	}
 	verifhook.At("routing.binaryspray.reportfailure.rmw")
 
-	bs.dataMutex.Lock()
 	bs.bundleData[bp.Id] = metadata
-	bs.dataMutex.Unlock()
 }
 
 func (_ *BinarySpray) ReportPeerAppeared(_ cla.Convergence) {}
